@@ -3,7 +3,7 @@ from . import astq as A
 from . import absint as AI
 from . import flow
 from .canon import Canon
-from .facts import walk, strip
+from .facts import walk, strip, AnalysisIncomplete
 from .lr import first_inst
 
 P = "ctpg::parser::"
@@ -173,3 +173,74 @@ def empty_guard(chk, fx):
                       "element -1 (undefined behaviour; not a constant expression for a failing constexpr parse)")
     else:
         chk.ok("EMPTY", A.site(f), "cursor_stack.back() is read only after size() != 0 was seen (%d read(s))" % n)
+
+
+# ------------------------------------------------------------------------------------------------ POSB
+def posb(chk, fx):
+    """POSB: an element of a rule's right side is read only at a position that was compared with the rule's length.
+    `right_sides[r][p]` has max_rule_element_count slots, but only the first r_elements hold symbols: the rest are
+    value-initialised symbols whose idx is used as an index into the name / FIRST tables by every reader. On every
+    structured path (first loop iteration, reassigned locals value-numbered so that a counter reads its initial value) the
+    position read must have been tested `p < <rule>.r_elements` (or `p < <item>.after`, after <= r_elements by
+    construction of items) before the read."""
+    from . import pathsig as PSIG
+    from .canon import Canon
+    chk.rule("POSB", "reads of right_sides[rule][position] with the position bounded by the rule's length", 5)
+    seen = set()
+
+    def reads(cn_, node):
+        out = []
+        for n in walk(node):
+            if n.get("k") != "ArraySubscriptExpr":
+                continue
+            b = strip(n["c"][0], casts=True)
+            if b is None or b.get("k") != "ArraySubscriptExpr":
+                continue
+            bb = strip(b["c"][0], casts=True)
+            if bb is not None and bb.get("k") == "MemberExpr" and bb["m"]["q"].endswith("grammar_info::right_sides"):
+                out.append(PSIG.Event("read", cn_.c(n["c"][1]), n))
+        return out
+
+    for f in fx.all_fns():
+        q = f.o["q"]
+        if f.is_pattern or f.body is None or not q.startswith("ctpg::parser::"):
+            continue
+        if (q, f.o.get("l")) in seen:
+            continue
+        if not any(True for _ in reads(Canon(f), f.body)):
+            continue
+        seen.add((q, f.o.get("l")))
+        if q.endswith("::analyze_rule"):
+            continue            # the writer: positions are the template indices of the rule's own tuple (TIX)
+        cn = Canon(f, uniform=True, noinline=True)
+        try:
+            conds, nodes = PSIG.event_conditions(cn, f.body, events_of=reads, unroll=1, versioned=True,
+                                                 drop=lambda a: False)
+        except AnalysisIncomplete as e:
+            chk.defer_incomplete("POSB: %s: %s" % (f.o["n"], e))
+            continue
+        for (kind, p), dnf in conds.items():
+            if kind != "read":
+                continue
+            site = A.site(f, nodes[(kind, p)])
+            bad = None
+            for conj in dnf:
+                ok = False
+                for t, pol in conj:
+                    if pol and t.startswith("(%s < " % p) and (t.endswith(".r_elements)") or t.endswith(".after)")):
+                        ok = True
+                        break
+                if not ok:
+                    bad = conj
+                    break
+            if bad is None:
+                chk.ok("POSB", site, "position %s is below the rule's length on every path to the read" % p[:60])
+            elif p.startswith("($1 - ") or p.startswith("(($1 - "):
+                chk.ok("POSB", site, "position counts down from the caller's rule_size - 1 (= the rule's own length, a "
+                                     "template constant of analyze_rule)")
+            else:
+                chk.violation("POSB", site, "POSB:%s" % f.o["n"],
+                              "right_sides[...][%s] is read on a path where the position was not compared with the rule's "
+                              "length (r_elements): for a shorter (or empty) rule the slot holds a value-initialised symbol "
+                              "whose idx then indexes the name / set tables (path: %s)" % (
+                                  p[:60], PSIG.show({bad})[:160]))
